@@ -58,13 +58,13 @@ META["C08"] = dict(
     technique="Lean 4 proof over hand model + fault-script differential correspondence",
 )
 META["C09"] = dict(
-    text="Lean 4 theorems: c09_pubsub_terminates (a poll needs at most work(s)+1 loop iterations, work = queued registrations + answers the publisher streams hold), c09_pubsub_channel_drained and c09_pubsub_no_unflushed_work (whenever it yields not blocked by a subscriber, the channel is empty and holds the waker and nothing is unwritten or unflushed), c09_pubsub_calm_never_blocked; the real Topic is driven by a wake-driven executor and compared with the model including skipped polls; across polls: c09_pubsub_pending_poll_makes_progress (a poll that ends blocked on a subscriber or waiting for publishers has used up an answer its peers held; none adds one) and c09_pubsub_wake_driven_executor_delivers (from any reachable state a wake-driven executor needs at most measure(s) further polls until a poll ends idle or finished, and then everything accepted is handed over and flushed); request/reply half: c09_reqrep_no_unflushed_work (a poll that ends waiting holds no reply back and has flushed every requestor sink and the replier's sink)",
+    text="Lean 4 theorems: c09_pubsub_terminates (a poll needs at most work(s)+1 loop iterations, work = queued registrations + answers the publisher streams hold), c09_pubsub_channel_drained and c09_pubsub_no_unflushed_work (whenever it yields not blocked by a subscriber, the channel is empty and holds the waker and nothing is unwritten or unflushed), c09_pubsub_calm_never_blocked; the real Topic is driven by a wake-driven executor and compared with the model including skipped polls; across polls: c09_pubsub_pending_poll_makes_progress (a poll that ends blocked on a subscriber or waiting for publishers has used up an answer its peers held; none adds one) and c09_pubsub_wake_driven_executor_delivers (from any reachable state a wake-driven executor needs at most measure(s) further polls until a poll ends idle or finished, and then everything accepted is handed over and flushed); request/reply half: c09_reqrep_no_unflushed_work (a poll that ends waiting holds no reply back and has flushed every requestor sink and the replier's sink); c09_reqrep_blocked_poll_makes_progress / c09_reqrep_wake_driven_executor_unblocks (rmeasure: a request/reply router is never blocked on a sink for ever) and c09_reqrep_idle_means_flushed (invariant over all histories: the early park, which does not flush, is only taken with every requestor sink flushed)",
     design_ref="DESIGN.md section 6, C09",
     note="pub/sub half; request/reply half in the second part of Props/C09.lean when present",
     technique="Lean 4 termination-bound and quiescence proofs + wake-driven differential correspondence",
 )
 META["C16"] = dict(
-    text="Lean 4 theorems: after close a poll from any state finishes or is blocked on a pending subscriber sink (c16_pubsub_closed_outcome), with subscribers able to accept data it finishes within work(s)+1 iterations (c16_pubsub_finishes), and at completion everything taken from a publisher is handed over and flushed (c16_pubsub_finishes_flushed), and it takes nothing more from any publisher / requestor / replier stream once closed, however much they still hold (c16_pubsub_closed_takes_nothing_more, c16_reqrep_closed_takes_nothing_more); same outcome theorem for the request/reply router (c16_reqrep_closed_outcome); the real Topic's channel is closed in many states and compared with the model; server level: a real server sent SIGINT in a process of its own with peers in eight states must return from listen(); c16_pubsub_shutdown_completes (closed, any scripts, any reachable state: the wake-driven executor reaches Ready within measure(s) polls with everything flushed), c16_shutdown_closes_every_topic and c16_server_shutdown_every_pubsub_topic_completes over the whole-server model (Server::shutdown closes every topic's channel), c16_reqrep_done_flushed",
+    text="Lean 4 theorems: after close a poll from any state finishes or is blocked on a pending subscriber sink (c16_pubsub_closed_outcome), with subscribers able to accept data it finishes within work(s)+1 iterations (c16_pubsub_finishes), and at completion everything taken from a publisher is handed over and flushed (c16_pubsub_finishes_flushed), and it takes nothing more from any publisher / requestor / replier stream once closed, however much they still hold (c16_pubsub_closed_takes_nothing_more, c16_reqrep_closed_takes_nothing_more); same outcome theorem for the request/reply router (c16_reqrep_closed_outcome); the real Topic's channel is closed in many states and compared with the model; server level: a real server sent SIGINT in a process of its own with peers in eight states must return from listen(); c16_pubsub_shutdown_completes (closed, any scripts, any reachable state: the wake-driven executor reaches Ready within measure(s) polls with everything flushed), c16_shutdown_closes_every_topic and c16_server_shutdown_every_pubsub_topic_completes over the whole-server model (Server::shutdown closes every topic's channel), c16_reqrep_done_flushed; c16_reqrep_shutdown_completes (request/reply router: closed, any scripts: Ready within rmeasure polls, requestor sinks flushed)",
     design_ref="DESIGN.md section 6, C16",
     note="the request/reply router drops a reply it still holds at shutdown (judged outside the statement, which speaks of publishers' messages: DESIGN.md section 8)",
     technique="Lean 4 proof over hand model + differential correspondence",
@@ -90,21 +90,21 @@ META["C11"] = dict(
 )
 
 META["C03"] = dict(
-    text="Lean 4 theorem c03_fidelity_partial over an executable model of the publisher (batching by size and by an arbitrary clock oracle, send = poll_ready/start_send/poll_flush, finish) and the subscriber (unbatching, pop order): for every lossless codec, every self-inverting compressor or none, batching off or on with any size, any frame limit, every item list and every clock: whenever every send() and finish() returned Ok the subscriber yields exactly the items sent, in order, and finish() leaves nothing in the batch or the framed writer; the framed writer's size check is part of the model (a refused frame is an error result), which is what exposes the known finding c03_refused_batch_loses_accepted_members (a batch that outgrows the frame limit is drained before it is refused); c03_subscriber_state_machine_refines_outputs (poll_next driven call after call yields the list-level specification) and c03_end_to_end_through_the_router_partial (publisher model, router model of C01 and subscriber model composed); tied to the code by running real clients through a real server over loopback QUIC for a grid of configurations and comparing what the subscriber yields",
+    text="Lean 4 theorem c03_fidelity_partial over an executable model of the publisher (batching by size and by an arbitrary clock oracle, send = poll_ready/start_send/poll_flush, finish) and the subscriber (unbatching, pop order): for every lossless codec, every self-inverting compressor or none, batching off or on with any size, any frame limit, every item list and every clock: whenever every send() and finish() returned Ok the subscriber yields exactly the items sent, in order, and finish() leaves nothing in the batch or the framed writer; the framed writer's size check is part of the model (a refused frame is an error result), which is what exposes the known finding c03_refused_batch_loses_accepted_members (a batch that outgrows the frame limit is drained before it is refused); c03_subscriber_state_machine_refines_outputs (poll_next driven call after call yields the list-level specification) and c03_end_to_end_through_the_router_partial (publisher model, router model of C01 and subscriber model composed); tied to the code by running real clients through a real server over loopback QUIC for a grid of configurations and comparing what the subscriber yields; c03_fidelity_any_driving_partial: the same for any mix of send / feed (accepted, not flushed) / flush / bare poll_ready before finish()",
     design_ref="DESIGN.md section 6, C03",
     note="_partial: the compression libraries' round trip is a hypothesis (tested in C14); transport and server forwarding are trusted/proved elsewhere (C01); one known finding (known_findings.json: C03-oversize-batch-drops-accepted-items) is reported as KNOWN-FINDING on every run",
     technique="Lean 4 invariant proof over hand model + end-to-end differential correspondence over loopback QUIC",
 )
 
 META["C04"] = dict(
-    text="Lean 4 invariant proof over a model of the state shared by a Requestor and its clones (id counter, pending-request map, per-call timeout, reply reader) against an adversarial reply stream: c04_own_reply (every delivered reply carries exactly the id of the call that got it; a reply goes to at most one call and a call gets at most one reply), c04_late_reply_dropped, c04_timeout, c04_ids_distinct (< 2^32 calls); plus the honest exchange closed end to end over the models of the library Replier (listen answers in order with the request's own headers), the router's tagging / routing and the decimal printing / parsing of both ids: c04_replier_answers_in_order_with_request_headers, c04_echoed_reply_reaches_its_requestor, c04_request_id_roundtrip, c04_honest_exchange_completes; composed with C02 for separate streams; tied to the code by running real requestors against a scripted raw replier, and a real Replier against a raw requestor, over loopback QUIC; the server's routing (reqrep suite) and a requestor whose connection is cut while other streams hold requests with the same req_id (rqdead) are part of the check",
+    text="Lean 4 invariant proof over a model of the state shared by a Requestor and its clones (id counter, pending-request map, per-call timeout, reply reader) against an adversarial reply stream: c04_own_reply (every delivered reply carries exactly the id of the call that got it; a reply goes to at most one call and a call gets at most one reply), c04_late_reply_dropped, c04_timeout, c04_ids_distinct (< 2^32 calls); plus the honest exchange closed end to end over the models of the library Replier (listen answers in order with the request's own headers), the router's tagging / routing and the decimal printing / parsing of both ids: c04_replier_answers_in_order_with_request_headers, c04_echoed_reply_reaches_its_requestor, c04_request_id_roundtrip, c04_honest_exchange_completes; composed with C02 for separate streams; tied to the code by running real requestors against a scripted raw replier, and a real Replier against a raw requestor, over loopback QUIC; the server's routing (reqrep suite) and a requestor whose connection is cut while other streams hold requests with the same req_id (rqdead) are part of the check; c04_request_id_counter_width (regenerated: the id counter is 32 bits wide)",
     design_ref="DESIGN.md section 6, C04",
     note="trusts tokio oneshot/timeout and the transport; cross-stream isolation is C02",
     technique="Lean 4 invariant proof over hand model + end-to-end differential correspondence",
 )
 
 META["C17"] = dict(
-    text="Lean 4 theorems over a transition system of registration tasks, one global lock and per-topic bounded channels, parameterised by facts the translator reads from handle_stream (is an awaited send inside the lock guard's scope?): c17_lock_holder_never_blocked (in every reachable state the task holding the lock has an enabled step), c17_other_topic_progress (a registration for a topic with room completes in five of its own steps whatever any other topic's channel holds), lock invariant by induction, c17_connection_keeps_accepting (the connection's accept loop hands every stream to a task of its own: regenerated); the stall itself is exhibited end to end (non-reading subscriber, over-full channel, probe on another topic)",
+    text="Lean 4 theorems over a transition system of registration tasks, one global lock and per-topic bounded channels, parameterised by facts the translator reads from handle_stream (is an awaited send inside the lock guard's scope?): c17_lock_holder_never_blocked (in every reachable state the task holding the lock has an enabled step), c17_other_topic_progress (a registration for a topic with room completes in five of its own steps whatever any other topic's channel holds), lock invariant by induction, c17_connection_keeps_accepting (the connection's accept loop hands every stream to a task of its own: regenerated); the stall itself is exhibited end to end (non-reading subscriber, over-full channel, probe on another topic); c17_answer_waits_for_nobody over the regenerated fact that registration answers are written with send (flushed) by the handler",
     design_ref="DESIGN.md section 6, C17",
     note="proof of the lock/queue discipline; QUIC flow control and tokio scheduling are exercised, not proved",
     technique="Lean 4 invariant proof over a task/lock model with source-extracted structure + end-to-end stall scenario",
@@ -118,7 +118,7 @@ META["C15"] = dict(
 )
 
 META["C12"] = dict(
-    text="Lean 4 theorems over the retry logic with its budget scope read from the source: c12_budget_per_outage (the outcome of every outage is that of a fresh budget), c12_survives_any_number_of_outages, c12_exhaustion_iff (too-many-retries exactly when all attempts of one outage fail), c12_fatal_immediate, c12_recovers, obligations budgets_per_outage / recoverable_classification on the regenerated facts; plus the pub/sub wrapper as a poll-level state machine with wake accounting (c12_no_lost_wakeup, c12_close_no_lost_wakeup, c12_exhaustion_is_reported under a wake-driven executor for every budget), the wrapper's wake sites regenerated from the source; reconnection itself is exercised end to end by cutting real QUIC connections more often than the budget and checking traffic after each recovery for all four stream kinds",
+    text="Lean 4 theorems over the retry logic with its budget scope read from the source: c12_budget_per_outage (the outcome of every outage is that of a fresh budget), c12_survives_any_number_of_outages, c12_exhaustion_iff (too-many-retries exactly when all attempts of one outage fail), c12_fatal_immediate, c12_recovers, obligations budgets_per_outage / recoverable_classification on the regenerated facts; plus the pub/sub wrapper as a poll-level state machine with wake accounting (c12_no_lost_wakeup, c12_close_no_lost_wakeup, c12_exhaustion_is_reported under a wake-driven executor for every budget), the wrapper's wake sites regenerated from the source; reconnection itself is exercised end to end by cutting real QUIC connections more often than the budget and checking traffic after each recovery for all four stream kinds; the connection shared by all streams of a Client (Client/SharedConn over the regenerated fact that reconnect() redials only a closed connection): c12_sibling_recovery_does_not_disturb, c12_all_siblings_recover",
     design_ref="DESIGN.md section 6, C12",
     note="proof of the retry logic; reconnecting through quinn/TLS/the server is exercised, not proved",
     technique="Lean 4 proof over retry model with source-extracted budget scope + end-to-end fault injection",
